@@ -18,6 +18,7 @@ import (
 	"strings"
 	"testing"
 
+	hcl "Havoc/pkg/profile/yaotl"
 	"Havoc/pkg/profile/yaotl/hclsyntax"
 	"Havoc/pkg/profile/yaotl/hclwrite"
 
@@ -30,6 +31,7 @@ import (
 type CaseA struct {
 	Origin string   `json:"origin"` // srcgen | schema
 	Src    string   `json:"src"`
+	Src2   string   `json:"src2,omitempty"` // a second, different file handled in the same case
 	Feat   []string `json:"feat,omitempty"`
 }
 
@@ -63,21 +65,36 @@ func genSource(t *rapid.T) (string, string, []string) {
 
 func genA(t *rapid.T) CaseA {
 	src, origin, feat := genSource(t)
-	return CaseA{Origin: origin, Src: src, Feat: feat}
+	c := CaseA{Origin: origin, Src: src, Feat: feat}
+	if rapid.IntRange(0, 3).Draw(t, "second-file") > 0 {
+		c.Src2, _, _ = genSource(t)
+	}
+	return c
 }
 
-func checkA(c CaseA) *core.Violation {
-	src := []byte(c.Src)
+// stateA: what the first phase (load, P1) hands to the second (P2), which runs
+// after all files of the case have been serialised.
+type stateA struct {
+	text   string
+	src    []byte
+	toks   []tk
+	parsed *hcl.File
+	fm     []byte
+}
+
+// loadA: P1 for one source; nil state when the source is outside the property.
+func loadA(text string, k *keeper) (*stateA, *core.Violation) {
+	src := []byte(text)
 	parsed, pd := hclsyntax.ParseConfig(src, "", startPos)
 	if pd.HasErrors() {
 		// \uNNNN / \UNNNNNNNN are not escapes of this dialect: the yaotl scanner has \xHH in their place
 		// (the property file lists the accepted escapes as \n \r \t \" \\ and \xHH), so such a source is
 		// not a syntactically valid file and is outside the property like any other rejected source.
-		return nil // not a syntactically valid file: outside the property (counted by classify)
+		return nil, nil // not a syntactically valid file: outside the property (counted by classify)
 	}
 	toks, ok := lex(src)
 	if !ok {
-		return nil
+		return nil, nil
 	}
 	// expected P1 bytes from the scanner's own token ranges
 	var want bytes.Buffer
@@ -86,7 +103,7 @@ func checkA(c CaseA) *core.Violation {
 		gap := src[prev:t.Start]
 		for _, ch := range gap {
 			if ch != ' ' && ch != '\t' {
-				return nil // scanner contract broken (C17's concern), nothing to assert here
+				return nil, nil // scanner contract broken (C17's concern), nothing to assert here
 			}
 		}
 		want.WriteString(strings.Repeat(" ", len(gap)))
@@ -94,14 +111,14 @@ func checkA(c CaseA) *core.Violation {
 		prev = t.End
 	}
 	if prev != len(src) {
-		return nil
+		return nil, nil
 	}
 
 	f, diags := hclwrite.ParseConfig(src, "", startPos)
 	if diags.HasErrors() || f == nil {
-		return core.V("P1|valid-source-rejected", "hclsyntax.ParseConfig accepts the source, hclwrite.ParseConfig reports: %s\n%s", diags.Error(), clip(c.Src, 3000))
+		return nil, core.V("P1|valid-source-rejected", "hclsyntax.ParseConfig accepts the source, hclwrite.ParseConfig reports: %s\n%s", diags.Error(), clip(text, 3000))
 	}
-	got := f.BuildTokens(nil).Bytes()
+	got := k.keep("Tokens.Bytes", f.BuildTokens(nil).Bytes())
 	if !bytes.Equal(got, want.Bytes()) {
 		i := 0
 		for i < len(got) && i < want.Len() && got[i] == want.Bytes()[i] {
@@ -117,27 +134,52 @@ func checkA(c CaseA) *core.Violation {
 		if lo < 0 {
 			lo = 0
 		}
-		return core.V("P1|roundtrip|"+kind, "token stream of the parsed tree differs from the source at byte %d (len %d vs %d)\nwant ...%q\ngot  ...%q\nsource:\n%s", i, want.Len(), len(got), clip(string(want.Bytes()[lo:]), 160), clip(string(got[lo:]), 160), clip(c.Src, 3000))
+		return nil, core.V("P1|roundtrip|"+kind, "token stream of the parsed tree differs from the source at byte %d (len %d vs %d)\nwant ...%q\ngot  ...%q\nsource:\n%s", i, want.Len(), len(got), clip(string(want.Bytes()[lo:]), 160), clip(string(got[lo:]), 160), clip(text, 3000))
 	}
 
-	fm := hclwrite.Format(src)
-	if fb := f.Bytes(); !bytes.Equal(fb, fm) {
-		return core.V("P1|File.Bytes-vs-Format", "File.Bytes() of the parsed file differs from Format(src)\nBytes():\n%s\nFormat():\n%s", clip(string(fb), 2000), clip(string(fm), 2000))
+	fm := k.keep("Format", hclwrite.Format(src))
+	if fb := k.keep("File.Bytes", f.Bytes()); !bytes.Equal(fb, fm) {
+		return nil, core.V("P1|File.Bytes-vs-Format", "File.Bytes() of the parsed file differs from Format(src)\nBytes():\n%s\nFormat():\n%s", clip(string(fb), 2000), clip(string(fm), 2000))
 	}
 
+	// partial serialisations: root body, expressions, traversals
+	k.keep("Body.BuildTokens.Bytes", f.Body().BuildTokens(nil).Bytes())
+	attrs := f.Body().Attributes()
+	names := make([]string, 0, len(attrs))
+	for n := range attrs {
+		names = append(names, n)
+	}
+	sort.Strings(names)
+	for i, n := range names {
+		if i >= 3 {
+			break
+		}
+		ex := attrs[n].Expr()
+		k.keep("Expression.BuildTokens.Bytes", ex.BuildTokens(nil).Bytes())
+		if vs := ex.Variables(); len(vs) > 0 {
+			k.keep("Traversal.BuildTokens.Bytes", vs[0].BuildTokens(nil).Bytes())
+		}
+	}
+	return &stateA{text: text, src: src, toks: toks, parsed: parsed, fm: fm}, nil
+}
+
+// formatA: P2, on the retained result of Format.
+func formatA(st *stateA, k *keeper) *core.Violation {
+	text, src, toks, parsed, fm := st.text, st.src, st.toks, st.parsed, st.fm
+	_ = src
 	// ---- P2
 	ftoks, fok := lex(fm)
 	if !fok {
-		return core.V("P2|format|output-does-not-lex", "Format output has scanner errors\n%s\nsource:\n%s", clip(string(fm), 2000), clip(c.Src, 2000))
+		return core.V("P2|format|output-does-not-lex", "Format output has scanner errors\n%s\nsource:\n%s", clip(string(fm), 2000), clip(text, 2000))
 	}
 	if i := sameToks(toks, ftoks); i >= 0 {
 		what := "token-changed"
 		if i < len(toks) && toks[i].Type == hclsyntax.TokenComment {
 			what = "comment-changed"
 		}
-		return core.V("P2|format|"+what+"|"+strings.ToLower(strings.TrimPrefix(fmt.Sprint(toks[minInt(i, len(toks)-1)].Type), "Token")), "Format changed token %d: %s -> %s\nformatted:\n%s\nsource:\n%s", i, tokAt(toks, i), tokAt(ftoks, i), clip(string(fm), 2000), clip(c.Src, 2000))
+		return core.V("P2|format|"+what+"|"+strings.ToLower(strings.TrimPrefix(fmt.Sprint(toks[minInt(i, len(toks)-1)].Type), "Token")), "Format changed token %d: %s -> %s\nformatted:\n%s\nsource:\n%s", i, tokAt(toks, i), tokAt(ftoks, i), clip(string(fm), 2000), clip(text, 2000))
 	}
-	prev = 0
+	prev := 0
 	for _, t := range ftoks {
 		for _, ch := range fm[prev:t.Start] {
 			if ch != ' ' {
@@ -146,19 +188,19 @@ func checkA(c CaseA) *core.Violation {
 		}
 		prev = t.End
 	}
-	if fm2 := hclwrite.Format(fm); !bytes.Equal(fm2, fm) {
+	if fm2 := k.keep("Format", hclwrite.Format(fm)); !bytes.Equal(fm2, fm) {
 		i := 0
 		for i < len(fm) && i < len(fm2) && fm[i] == fm2[i] {
 			i++
 		}
-		return core.V("P2|format|not-idempotent", "Format(Format(src)) != Format(src), first difference at byte %d\nonce:\n%s\ntwice:\n%s\nsource:\n%s", i, clip(string(fm), 1500), clip(string(fm2), 1500), clip(c.Src, 1500))
+		return core.V("P2|format|not-idempotent", "Format(Format(src)) != Format(src), first difference at byte %d\nonce:\n%s\ntwice:\n%s\nsource:\n%s", i, clip(string(fm), 1500), clip(string(fm2), 1500), clip(text, 1500))
 	}
 	fparsed, fd := hclsyntax.ParseConfig(fm, "", startPos)
 	if fd.HasErrors() {
-		return core.V("P2|format|output-does-not-parse", "formatted text has errors: %s\n%s\nsource:\n%s", fd.Error(), clip(string(fm), 2000), clip(c.Src, 2000))
+		return core.V("P2|format|output-does-not-parse", "formatted text has errors: %s\n%s\nsource:\n%s", fd.Error(), clip(string(fm), 2000), clip(text, 2000))
 	}
 	if a, b := dumpAST(parsed.Body), dumpAST(fparsed.Body); a != b {
-		return core.V("P2|format|tree-differs", "formatted text parses to a different tree\nformatted:\n%s\nsource:\n%s", clip(string(fm), 2000), clip(c.Src, 2000))
+		return core.V("P2|format|tree-differs", "formatted text parses to a different tree\nformatted:\n%s\nsource:\n%s", clip(string(fm), 2000), clip(text, 2000))
 	}
 	ctx := evalContext()
 	var ev, fev []attrEval
@@ -173,10 +215,34 @@ func checkA(c CaseA) *core.Violation {
 			continue // evaluation panics are another property's concern
 		}
 		if a.path != b.path || a.err != b.err || (!a.err && !a.val.RawEquals(b.val)) {
-			return core.V("P2|format|value-differs", "attribute %s evaluates to %#v (errors=%v), after formatting %s = %#v (errors=%v)\nformatted:\n%s\nsource:\n%s", a.path, a.val, a.err, b.path, b.val, b.err, clip(string(fm), 2000), clip(c.Src, 2000))
+			return core.V("P2|format|value-differs", "attribute %s evaluates to %#v (errors=%v), after formatting %s = %#v (errors=%v)\nformatted:\n%s\nsource:\n%s", a.path, a.val, a.err, b.path, b.val, b.err, clip(string(fm), 2000), clip(text, 2000))
 		}
 	}
 	return nil
+}
+
+func checkA(c CaseA) *core.Violation {
+	k := newKeeper()
+	var states []*stateA
+	for _, text := range []string{c.Src, c.Src2} {
+		if text == "" && len(states) > 0 {
+			continue
+		}
+		st, v := loadA(text, k)
+		if v != nil {
+			return k.finish(v)
+		}
+		if st != nil {
+			states = append(states, st)
+		}
+	}
+	// P2 runs on the retained Format results, after every file has been serialised
+	for _, st := range states {
+		if v := formatA(st, k); v != nil {
+			return k.finish(v)
+		}
+	}
+	return k.finish(nil)
 }
 
 // lossSite names the place of the first token of src that is missing from the
@@ -271,6 +337,11 @@ func classifyA(c CaseA) core.Class {
 		return cl
 	}
 	cl.Labels = append(cl.Labels, "source:valid")
+	if c.Src2 != "" && c.Src2 != c.Src {
+		cl.Labels = append(cl.Labels, "results:two-different-files-serialised")
+	} else {
+		cl.Labels = append(cl.Labels, "results:one-file-serialised")
+	}
 	cl.Labels = append(cl.Labels, c.Feat...)
 	if heredoc {
 		cl.Labels = append(cl.Labels, "has:heredoc")
@@ -316,7 +387,7 @@ func classifyA(c CaseA) core.Class {
 func TestC20a(t *testing.T) {
 	core.Run(t, core.Spec[CaseA]{
 		Property: "C20", Sub: "a",
-		Rule: "source files written from the grammar (all main-mode token kinds, # // /* */ comments, quoted templates and <<X / <<-X heredocs with interpolations, if/for directives and ~ markers, blocks with 0-2 quoted or bare labels, one-line blocks, odd spacing, tabs, blank lines, LF or CRLF, with or without final newline) or noisy renderings of schema instances (C19 renderer, with dynamic blocks); sources that hclsyntax rejects are skipped and counted. Oracle P1: token stream of hclwrite.ParseConfig's tree == source with the space/tab runs between scanner tokens turned into spaces, File.Bytes()==Format(src); P2: Format keeps every token (type, bytes), leaves only spaces between tokens, is idempotent, output parses to the same tree (ranges ignored) and every attribute evaluates to the same value. Non-trivial: the file has a heredoc, a comment or a template sequence; distinct = (origin, heredoc, comment, template, CRLF, missing final newline, hash of token-feature set mod 16)",
+		Rule: "source files written from the grammar (all main-mode token kinds, # // /* */ comments, quoted templates and <<X / <<-X heredocs with interpolations, if/for directives and ~ markers, blocks with 0-2 quoted or bare labels, one-line blocks, odd spacing, tabs, blank lines, LF or CRLF, with or without final newline) or noisy renderings of schema instances (C19 renderer, with dynamic blocks); sources that hclsyntax rejects are skipped and counted. Oracle: one or two different files per case, every []byte returned by Tokens.Bytes / File.Bytes / Format / Body, Expression and Traversal token serialisations is retained and must stay what it was after every later call and into the next case; P1: token stream of hclwrite.ParseConfig's tree == source with the space/tab runs between scanner tokens turned into spaces, File.Bytes()==Format(src); P2: Format keeps every token (type, bytes), leaves only spaces between tokens, is idempotent, output parses to the same tree (ranges ignored) and every attribute evaluates to the same value. Non-trivial: the file has a heredoc, a comment or a template sequence; distinct = (origin, heredoc, comment, template, CRLF, missing final newline, hash of token-feature set mod 16)",
 		Gen:  genA, Check: checkA, Classify: classifyA,
 		Assumptions: []string{
 			"hclsyntax.ParseConfig decides what a syntactically valid file is; hclsyntax.LexConfig token ranges decide what lies between tokens",
